@@ -762,8 +762,12 @@ def run(ck):
                 for v in lits:
                     excl.setdefault(v, set()).add(fn['path'])
     ck.floor('R4.3', len(excl), 11, 'pseudo-property names excluded from generic maps')
+    # reviewed: names whose reader is deliberately conditional
+    COND_OK = {'model': 'excluded for every widget but read here for combo boxes and list widgets only: on the other item views the binding is no constant and is left '
+                        'to the code-generation pass (setModel), which reports what it cannot translate'}
     for name, fns in sorted(excl.items()):
         handlers = []
+        hsites = []
         for fn in L.fn_list:
             if not fn['path'].startswith('uigen::'):
                 continue
@@ -775,9 +779,38 @@ def run(ck):
                     continue
                 if any(H.lit_value(a) == name for a in c['args']):
                     handlers.append('%s:%s' % (short(fn['path']), nm))
+                    hsites.append((fn, c))
             # match arms on the key (LayoutFlow::parse reads the three grid pseudo properties by name)
         ck.ob('R4.3', 'handler|%s' % name, bool(handlers), '', 'excluded in %s; handled by %s' % (sorted(short(f) for f in fns), sorted(set(handlers))[:4]) if handlers else
               'pseudo property "%s" is excluded from generic handling in %s but no code reads it: the binding takes effect nowhere' % (name, sorted(short(f) for f in fns)))
+        # the reader runs whenever the name is excluded: a binding that is excluded from the generic map and then read on some paths only is,
+        # on the other paths, never evaluated — it takes no effect and its errors are not reported
+        def branch_guards(f_, node):
+            out = []
+            for a in H.ancestors(f_, node):
+                if a.get('k') == 'If' and (any(x is node for x in walk(a['then'])) or ('els' in a and any(x is node for x in walk(a['els'])))):
+                    out.append(a)
+                elif a.get('k') == 'Match' and not any(x is node for x in walk(a['e'])):
+                    out.append(a)
+            return out
+        excl_guards = {}
+        for fp in fns:
+            f_ = L.fns[fp]
+            for x in walk(f_['body']):
+                if x.get('k') == 'Lit' and x.get('v') == name:
+                    par = next((a for a in H.ancestors(f_, x) if a.get('k') in ('MCall', 'Call', 'Let', 'Array')), None)
+                    if par is not None and not (par.get('k') in ('MCall', 'Call') and any(hc is par for _, hc in hsites)):
+                        excl_guards.setdefault(fp, []).append({id(g) for g in branch_guards(f_, x)})
+        uncond = []
+        for f_, hc in hsites:
+            gs = {id(g) for g in branch_guards(f_, hc)}
+            if not gs or any(gs <= eg for eg in excl_guards.get(f_['path'], [])):
+                uncond.append(short(f_['path']))
+        okc = bool(uncond) or name in COND_OK or not hsites
+        ck.ob('R4.3', 'read-whenever-excluded|%s' % name, okc, L.loc(hsites[0][1]) if hsites else '',
+              ('read unconditionally in %s' % sorted(set(uncond))[:3]) if uncond else ('reviewed: ' + COND_OK[name]) if name in COND_OK else
+              'pseudo property "%s" is excluded from generic handling, but every place that reads it is conditional (%s): on the other paths the binding is never evaluated, '
+              'so it has no effect and an error in it is never reported' % (name, sorted(set(short(f_['path']) for f_, _ in hsites))))
 
     diagnostics_store(ck, L)
     layout_data_written(ck, L)
